@@ -24,12 +24,15 @@ def main():
     print("loaded in %.1fs; contracts from %s" % (time.time() - t0, V.contract_files))
     tot = ok = 0
     items = [("lemma", n) for n in sorted(V.contracts.lemmas)] + [("func", f) for f in V.functions_with_contracts()]
+    for f in list(V.prog.funcs.values()):
+        for vc in V.variants_for(f):
+            items.append(("variant", (f, vc)))
     for kind, f in items:
-        name = ("lemma$" + f) if kind == "lemma" else V.display_name(f)
+        name = ("lemma$" + f) if kind == "lemma" else (V.display_name(f[0]) + "[%s]" % f[1].variant) if kind == "variant" else V.display_name(f)
         if a.only and not any(x in name for x in a.only.split(",")):
             continue
         t1 = time.time()
-        rec = V.verify_lemma(f) if kind == "lemma" else V.verify_function(f)
+        rec = V.verify_lemma(f) if kind == "lemma" else V.verify_function(f[0], contract=f[1]) if kind == "variant" else V.verify_function(f)
         name = rec["name"]
         V.discharge(rec["obligations"])
         bad = [o for o in rec["obligations"] if o.result is None or o.result.status != "unsat"]
